@@ -94,7 +94,7 @@ class RecordingLogger:
         self.flushes += 1
 
 
-def build_actions(hist, rng, env, rich=None, admit=None, force=None):
+def build_actions(hist, rng, env, rich=None, admit=None, force=None, twin_rejected=False):
     """Model history -> concrete script actions (real targets, real values); force: frame id -> target name."""
     acts, chosen = [], {}
 
@@ -123,6 +123,7 @@ def build_actions(hist, rng, env, rich=None, admit=None, force=None):
                 args = []
             kind = {"F": "plain", "U": "plain", "G": "gen", "C": "coro"}[h["f"]]
             wanted = t["wanted"] and (admit is None or t["sigfunc"]().__code__.co_qualname in admit)
+            wanted = wanted and not (twin_rejected and t["name"].startswith("twin "))
             acts.append({"op": op, "f": t["canon"], "kind": kind, "wanted": wanted, "target": t["name"],
                          "args": args, "kwargs": kwargs, "sigfunc": t["sigfunc"], "selfargs": t["selfargs_f"],
                          "catch": h["catch"], "draw": h["draw"], "id": h["id"]})
@@ -180,12 +181,15 @@ def run_scenario(sc):
     S = script.S
     rng = random.Random(sc["seed"])
     admit = sc.get("admit")
-    acts, chosen = build_actions(sc["hist"], rng, env, sc.get("rich"), admit, sc.get("force"))
+    twin_rejected = bool(sc.get("twin_rejected"))     # the code filter admits the traced module but not its byte-identical twin
+    acts, chosen = build_actions(sc["hist"], rng, env, sc.get("rich"), admit, sc.get("force"), twin_rejected)
     targets = {n: t["maker_f"] for n, t in env["targets"].items()}
     S.reset(acts, targets, absmodel.abs_value)
     reg = env["reg"] if admit is None else {c: (n, w and n.split(":")[-1] in admit, m) for c, (n, w, m) in env["reg"].items()}
+    if twin_rejected:
+        reg = {c: (n, w and not n.startswith("mtx_twin:"), m) for c, (n, w, m) in reg.items()}
     logger = RecordingLogger(S, reg)
-    traced_path = (env["traced_path"], env["twin_path"])
+    traced_path = (env["traced_path"],) if twin_rejected else (env["traced_path"], env["twin_path"])
     if admit is None:
         code_filter = lambda code: code.co_filename in traced_path  # noqa: E731
     else:
@@ -493,7 +497,7 @@ def main(pid, tier, seed, replay=None):
         for i, b in enumerate(beh1 + beh2):
             tid = len(scs) + 1
             rate = rates[i % len(rates)]
-            scs.append({"tid": tid, "hist": b["hist"], "rate": rate, "k": 0, "seed": seed * 7919 + i})
+            scs.append({"tid": tid, "hist": b["hist"], "rate": rate, "k": 0, "seed": seed * 7919 + i, "twin_rejected": i % 4 == 3})
             preds[tid] = b["pred"]
             if i % 5 == 0:   # the same behaviour with rich values (no prediction; P-layer only)
                 scs.append({"tid": tid + 1, "hist": b["hist"], "rate": rate, "k": rng.choice([0, 3]),
@@ -516,7 +520,7 @@ def main(pid, tier, seed, replay=None):
     for v in verdicts:
         rec, sc = by_tid[v["tid"]], sc_by_tid[v["tid"]]
         for clause in v.get("viol", []):
-            case = {k: sc[k] for k in ("hist", "rate", "k", "seed") if k in sc}
+            case = {k: sc[k] for k in ("hist", "rate", "k", "seed", "twin_rejected") if k in sc}
             if "rich" in sc:
                 case["rich"] = sc["rich"]
             run.violation(scenario_signature(rec, sc, clause), case)
